@@ -177,6 +177,9 @@ pub struct Ctx {
     pub extra: BTreeMap<String, Json>,
 }
 
+/// cases completed so far in this process (watched by the stall detector in main)
+pub static PROGRESS: std::sync::atomic::AtomicU64 = std::sync::atomic::AtomicU64::new(0);
+
 thread_local! {
     static LAST_PANIC: RefCell<String> = RefCell::new(String::new());
 }
@@ -207,7 +210,12 @@ fn panic_sig(msg: &str) -> String {
     let loc = msg.rsplit(" @ ").next().unwrap_or("");
     let file = loc.rsplit('/').next().unwrap_or(loc);
     let file = file.split(':').next().unwrap_or(file);
-    format!("panic@{}", file)
+    // a panic inside the harness's own code (relative path) is a harness defect, not the crate's
+    if loc.starts_with("src/") {
+        format!("harness:panic@{}", file)
+    } else {
+        format!("panic@{}", file)
+    }
 }
 
 const MAX_VIOLATIONS: usize = 12;
@@ -297,9 +305,11 @@ impl Ctx {
 
     fn merge(&mut self, gen: &str, words: &[u32], obs: Obs) {
         if obs.excluded {
+            PROGRESS.fetch_add(1, std::sync::atomic::Ordering::Relaxed);
             self.excluded_known += 1;
             return;
         }
+        PROGRESS.fetch_add(1, std::sync::atomic::Ordering::Relaxed);
         self.evaluations += 1 + obs.sub_evals;
         if let Some(d) = obs.nontrivial {
             self.nontrivial.insert(d);
